@@ -89,15 +89,23 @@ def validate(traces, nsrc, nsea, nbor, devs=(), workers=8):
         return out, None
     d = tlc.mkscratch('tr-')
     path = os.path.join(d, 'traces.json')
-    with open(path, 'w') as fh:
-        json.dump(traces, fh)
-    res = tlc.run('MibCompileTrace', 'tr.cfg', files={'tr.cfg': trace_cfg(nsrc, nsea, nbor, devs)},
-                  env={'TRACE_FILE': path}, workers=workers, timeout=1800)
-    for v in res.exports:
-        cur = out.get(v['id'])
-        # several terminal states for one trace only arise when the spec asks a question the code never asked
-        if cur is None or (cur['refine'] == 'ok' and v['refine'] != 'ok'):
-            out[v['id']] = v
+    res = None
+    for lo in range(0, len(traces), 5000):          # batches of 5000 traces per TLC run
+        with open(path, 'w') as fh:
+            json.dump(traces[lo:lo + 5000], fh)
+        r = tlc.run('MibCompileTrace', 'tr.cfg', files={'tr.cfg': trace_cfg(nsrc, nsea, nbor, devs)},
+                    env={'TRACE_FILE': path}, workers=workers, timeout=3600)
+        for v in r.exports:
+            cur = out.get(v['id'])
+            # several terminal states for one trace only arise when the spec asks a question the code never asked
+            if cur is None or (cur['refine'] == 'ok' and v['refine'] != 'ok'):
+                out[v['id']] = v
+        if res is None:
+            res = r
+        else:
+            res.distinct += r.distinct
+            res.generated += r.generated
+            res.wall += r.wall
     return out, res
 
 
